@@ -187,6 +187,10 @@ func ruleR22() *Rule {
 					if f == load || (reachCCE[f] && p.InZap(f)) || (isHandOut[f] && f != fn) {
 						return []uint64{ev | 1}
 					}
+					// the reference taken directly (load() inlined: incHit(); addRef())
+					if p.InZap(f) && f.Signature.Recv() != nil && isNamed(f.Signature.Recv().Type(), zapPkgPath, "cacheEntry") && addsRef(f) {
+						return []uint64{ev | 1}
+					}
 					return nil
 				}
 				pa := newPathAnalysis(fn, tr)
